@@ -1,10 +1,14 @@
 (* COMPLETENESS of the comparer on named netlists: every b that is structurally equivalent to a
-   (siblings in any order, pins of every wire in the same order, properties of a among those of
-   b) is accepted.  Generalises cmp_run_refl (b = a).  Assignment-style instance names are
-   allowed. *)
+   (siblings in any order, the same pins on every wire in any order, properties of a among those
+   of b) is accepted.  Generalises cmp_run_refl (b = a).
+   Two instances of one generic development (parameter WR = how the pins of two wires are related):
+   - pins in the same order (WR = eq): assignment-style instance names are allowed;
+   - pins as a set (WR = Permutation): for netlists without assignment-style instance names (two
+     instances named SDN_Assignment_x_w and SDN_Assignment_y_w have the same key, so among such
+     pins the first-come matching is not forced). *)
 From Coq Require Import String List Arith NArith ZArith Bool Lia Permutation.
 From SV Require Import Base.Base Cmp.Comparer Cmp.Diff Cmp.Equiv
-  Proofs.CmpBase Proofs.CmpAccept Proofs.CmpReject Proofs.CmpSound.
+  Proofs.CmpBase Proofs.CmpPinSet Proofs.CmpAccept Proofs.CmpReject Proofs.CmpSound.
 Import ListNotations.
 
 (* ---------- lookups in a named sibling list ---------- *)
@@ -98,29 +102,108 @@ Proof.
     + specialize (Hio i Hin). unfold asg_ok in Hio. rewrite Hn in Hio. assumption.
 Qed.
 
-Lemma cmp_pins_complete x io ic w :
+Lemma zip_pins_complete x io ic w :
   (forall i, In i io -> asg_ok i) -> refs_agree io ic -> forallb (wf_pin io) w = true ->
-  cmp_pins x x io ic w w = Accept.
+  zip_pins x x io ic w w = Accept.
 Proof.
   intros Hio Hra. induction w as [|p w IH]; cbn; intro H; [reflexivity|].
   apply andb_true_iff in H as [H1 H2]. rewrite cmp_pin_complete, IH by assumption. reflexivity.
 Qed.
 
-Lemma cmp_wires_complete x io ic ws :
-  (forall i, In i io -> asg_ok i) -> refs_agree io ic ->
-  forallb (forallb (wf_pin io)) ws = true -> cmp_wires x x io ic ws ws = Accept.
+(* a pin that resolves among the children of the first definition resolves among those of the second *)
+Lemma wf_pin_agree io ic p : refs_agree io ic -> wf_pin io p = true -> wf_pin ic p = true.
 Proof.
-  intros Hio Hra. induction ws as [|w ws IH]; cbn; intro H; [reflexivity|].
-  apply andb_true_iff in H as [H1 H2]. unfold cmp_wire.
-  rewrite Nat.eqb_refl, cmp_pins_complete, IH by assumption. reflexivity.
+  intros Hra. destruct p as [q b|[n|] q b| | |]; cbn [wf_pin]; try discriminate; [reflexivity|].
+  destruct (find (has_name i_name n) io) as [i|] eqn:Ef; [|discriminate].
+  destruct (Hra n i Ef) as [i' [Ef' Er']]. rewrite Ef', Er'. tauto.
+Qed.
+
+(* the same pins in the same order: every pin meets itself (assignment-style names allowed) *)
+Lemma cmp_wire_complete_ord x io ic w :
+  (forall i, In i io -> asg_ok i) -> refs_agree io ic -> forallb (wf_pin io) w = true ->
+  cmp_wire x x io ic w w = Accept.
+Proof.
+  intros Hio Hra H. rewrite cmp_wire_zip.
+  - apply zip_pins_complete; assumption.
+  - rewrite forallb_forall in H. intros c Hc.
+    rewrite (pin_key_raw x ic c (wf_pin_agree io ic c Hra (H c Hc))). eapply raw_key_wf; eauto.
+  - rewrite forallb_forall in H. apply Forall2_same. intros p Hp.
+    rewrite (pin_key_raw x io p (H p Hp)), (pin_key_raw x ic p (wf_pin_agree io ic p Hra (H p Hp))).
+    reflexivity.
+Qed.
+
+(* without assignment-style names the key of a pin is the pin: at most one pin of the other
+   wire is equivalent to it *)
+Lemma raw_key_inj io p p' : not_asg io -> wf_pin io p = true -> wf_pin io p' = true ->
+  raw_key p = raw_key p' -> p = p'.
+Proof.
+  intros Hna Hp Hp' Hk.
+  destruct (raw_key_noasg io p Hna Hp) as [[q [b [-> H]]]|[n [q [b [-> [_ H]]]]]];
+    destruct (raw_key_noasg io p' Hna Hp') as [[q' [b' [-> H']]]|[n' [q' [b' [-> [_ H']]]]]];
+    rewrite H, H' in Hk; inversion Hk; reflexivity.
+Qed.
+
+Definition key_of (p : pinref) : pkey :=
+  match raw_key p with inr k => k | inl _ => (false, None, None, 0) end.
+
+Lemma keys_of_wire x io w : (forall i, In i io -> asg_ok i) -> forallb (wf_pin io) w = true ->
+  Forall2 (fun p k => pin_key x io p = inr k) w (map key_of w).
+Proof.
+  intros Hio. induction w as [|p w IH]; cbn; intro H; constructor.
+  - apply andb_true_iff in H as [H1 _]. rewrite (pin_key_raw x io p H1). unfold key_of.
+    destruct (raw_key_wf io p Hio H1) as [k ->]. reflexivity.
+  - apply andb_true_iff in H as [_ H2]. apply IH. assumption.
+Qed.
+
+(* the same pins in another order *)
+Lemma cmp_wire_complete_set x io ic wo wc :
+  (forall i, In i io -> asg_ok i) -> not_asg io -> refs_agree io ic ->
+  forallb (wf_pin io) wo = true -> Permutation wo wc -> cmp_wire x x io ic wo wc = Accept.
+Proof.
+  intros Hio Hna Hra Hw Hp.
+  assert (Hwc : forallb (wf_pin io) wc = true).
+  { rewrite forallb_forall in *. intros c Hc. apply Hw. apply (Permutation_in _ (Permutation_sym Hp)). assumption. }
+  assert (Hwc' : forallb (wf_pin ic) wc = true).
+  { rewrite forallb_forall in *. intros c Hc. eapply wf_pin_agree; eauto. }
+  apply (cmp_wire_complete_gen x x io ic wo wc (map key_of wo) (map key_of wc)).
+  - apply keys_of_wire; assumption.
+  - pose proof (keys_of_wire x io wc Hio Hwc) as HF. rewrite forallb_forall in Hwc, Hwc'.
+    clear - HF Hwc Hwc'. revert HF. generalize (map key_of wc). induction wc as [|c wc IH]; intros l HF;
+      inversion HF; subst; constructor.
+    + rewrite (pin_key_raw x ic c) by (apply Hwc'; left; reflexivity).
+      rewrite <- (pin_key_raw x io c) by (apply Hwc; left; reflexivity). assumption.
+    + apply IH; try assumption; intros z Hz; [apply Hwc|apply Hwc']; right; assumption.
+  - apply Permutation_map. apply Permutation_sym. assumption.
+  - rewrite forallb_forall in Hw, Hwc, Hwc'. intros o c k Ho Hc Hko Hkc.
+    assert (c = o).
+    { apply (raw_key_inj io); auto.
+      rewrite <- (pin_key_raw x ic c (Hwc' c Hc)), <- (pin_key_raw x io o (Hw o Ho)). congruence. }
+    subst c. apply cmp_pin_complete; auto.
+Qed.
+
+(* ---------- generic in the relation between the pin lists of two wires ---------- *)
+Section Complete.
+Variable WR : wire -> wire -> Prop.
+Variable dom : list inst -> Prop.     (* what is assumed of the children of the first definition *)
+Hypothesis wire_ok : forall x io ic wo wc,
+  (forall i, In i io -> asg_ok i) -> dom io -> refs_agree io ic ->
+  forallb (wf_pin io) wo = true -> WR wo wc -> cmp_wire x x io ic wo wc = Accept.
+
+Lemma cmp_wires_complete x io ic : (forall i, In i io -> asg_ok i) -> dom io -> refs_agree io ic ->
+  forall wo wc, forallb (forallb (wf_pin io)) wo = true -> Forall2 WR wo wc ->
+  cmp_wires x x io ic wo wc = Accept.
+Proof.
+  intros Hio Hd Hra wo wc Hw HF. revert Hw. induction HF as [|w w' wo wc Hww HF IH]; cbn; intro H; [reflexivity|].
+  apply andb_true_iff in H as [H1 H2]. rewrite (wire_ok x io ic w w') by assumption.
+  cbn [seq]. apply IH. assumption.
 Qed.
 
 Lemma cmp_cable_complete x io ic o c :
-  (forall i, In i io -> asg_ok i) -> refs_agree io ic -> wf_cable io o = true ->
-  cable_rel eq o c -> cmp_cable x x io ic o c = Accept.
+  (forall i, In i io -> asg_ok i) -> dom io -> refs_agree io ic -> wf_cable io o = true ->
+  cable_rel WR o c -> cmp_cable x x io ic o c = Accept.
 Proof.
-  intros Hio Hra Hw [H1 [H2 H3]]. apply Forall2_eq in H3. unfold cmp_cable.
-  rewrite <- H1, <- H2, <- H3. rewrite !oname_eqb_refl, Nat.eqb_refl. cbn.
+  intros Hio Hd Hra Hw [H1 [H2 H3]]. unfold cmp_cable.
+  rewrite <- H1, <- H2, (Forall2_len _ _ _ H3). rewrite !oname_eqb_refl, Nat.eqb_refl. cbn.
   apply cmp_wires_complete; assumption.
 Qed.
 
@@ -288,10 +371,10 @@ Proof.
 Qed.
 
 (* ---------- definitions, libraries, netlists ---------- *)
-Lemma cmp_def_complete lo o c : wf_def o = true -> wf_def c = true ->
-  defn_rel props_sub eq o c -> cmp_def lo lo o c = Accept.
+Lemma cmp_def_complete lo o c : wf_def o = true -> wf_def c = true -> dom (d_insts o) ->
+  defn_rel props_sub WR o c -> cmp_def lo lo o c = Accept.
 Proof.
-  intros Hwo Hwc [H1 [H2 [H3 [H4 H5]]]]. apply wf_def_unpack in Hwo, Hwc.
+  intros Hwo Hwc Hdom [H1 [H2 [H3 [H4 H5]]]]. apply wf_def_unpack in Hwo, Hwc.
   pose proof (asg_ok_all o Hwo) as Hao. pose proof (asg_ok_all c Hwc) as Hac.
   pose proof (sib_refs_agree _ _ _ (wd_ni c Hwc) H5) as Hra.
   unfold cmp_def. cbv zeta. rewrite <- H1, <- H2. rewrite !oname_eqb_refl.
@@ -301,7 +384,7 @@ Proof.
     [|apply (wd_np c Hwc)|assumption|intros x y [G _]; exact G|].
   2:{ intros x y Hx _ Hr. apply cmp_port_complete; [apply (wd_wp o Hwo); assumption|assumption]. }
   cbn [seq].
-  rewrite (cmp_each_complete c_name no_skip false _ (cable_rel eq));
+  rewrite (cmp_each_complete c_name no_skip false _ (cable_rel WR));
     [|apply (wd_nc c Hwc)|assumption|intros x y [G _]; exact G|].
   2:{ intros x y Hx _ Hr. apply cmp_cable_complete; try assumption.
       pose proof (wd_wc o Hwo) as Hw. rewrite forallb_forall in Hw. apply Hw. assumption. }
@@ -315,16 +398,17 @@ Proof.
 Qed.
 
 Lemma cmp_lib_complete o c : wf_lib o = true -> wf_lib c = true ->
-  lib_rel props_sub eq o c -> cmp_lib o c = Accept.
+  (forall d, In d (l_defs o) -> dom (d_insts d)) ->
+  lib_rel props_sub WR o c -> cmp_lib o c = Accept.
 Proof.
-  unfold wf_lib. intros Hwo Hwc [H1 [H2 H3]].
+  unfold wf_lib. intros Hwo Hwc Hdom [H1 [H2 H3]].
   apply andb_true_iff in Hwo as [_ Hwo]. apply andb_true_iff in Hwc as [Hnc Hwc].
   rewrite forallb_forall in Hwo, Hwc.
   unfold cmp_lib. rewrite <- H1, <- H2. rewrite !oname_eqb_refl.
   rewrite (sib_equiv_length _ _ _ H3), Nat.eqb_refl. cbn [check seq].
-  apply (cmp_each_complete d_name no_skip false _ (defn_rel props_sub eq));
+  apply (cmp_each_complete d_name no_skip false _ (defn_rel props_sub WR));
     [assumption|assumption|intros x y [G _]; exact G|].
-  intros x y Hx Hy Hr. apply cmp_def_complete; [apply Hwo; assumption|apply Hwc; assumption|assumption].
+  intros x y Hx Hy Hr. apply cmp_def_complete; [apply Hwo; assumption|apply Hwc; assumption|apply Hdom; assumption|assumption].
 Qed.
 
 Lemma cmp_top_complete ta tb : wf_top ta = true -> top_rel props_sub ta tb ->
@@ -335,10 +419,11 @@ Proof.
   unfold props_ok. cbn in Hw. destruct (i_props i); [assumption|exact I].
 Qed.
 
-(* COMPLETENESS *)
-Theorem cmp_run_complete a b : wf_named a -> wf_named b -> nv_covered a b -> cmp_run a b = Accept.
+Theorem cmp_run_complete_gen a b : wf_named a -> wf_named b ->
+  (forall l d, In l (n_libs a) -> In d (l_defs l) -> dom (d_insts d)) ->
+  nv_rel props_sub WR a b -> cmp_run a b = Accept.
 Proof.
-  unfold wf_named, wf_namedb. intros Hwa Hwb [H1 [H2 [H3 H4]]].
+  unfold wf_named, wf_namedb. intros Hwa Hwb Hdom [H1 [H2 [H3 H4]]].
   apply andb_true_iff in Hwa as [Hwa Hla]. apply andb_true_iff in Hwa as [Hta _].
   apply andb_true_iff in Hwb as [Hwb Hlb]. apply andb_true_iff in Hwb as [_ Hnb].
   rewrite forallb_forall in Hla, Hlb.
@@ -348,16 +433,39 @@ Proof.
   2:{ symmetry. pose proof (cmp_top_complete _ _ Hta H3) as G.
       destruct (n_top a), (n_top b); exact G. }
   cbn [seq].
-  apply (cmp_each_complete l_name no_skip false _ (lib_rel props_sub eq));
+  apply (cmp_each_complete l_name no_skip false _ (lib_rel props_sub WR));
     [assumption|assumption|intros x y [G _]; exact G|].
-  intros x y Hx Hy Hr. apply cmp_lib_complete; [apply Hla; assumption|apply Hlb; assumption|assumption].
+  intros x y Hx Hy Hr. apply cmp_lib_complete; [apply Hla; assumption|apply Hlb; assumption| |assumption].
+  intros d Hd. apply (Hdom x d); assumption.
+Qed.
+End Complete.
+
+(* COMPLETENESS, pins in the same order (assignment-style names allowed) *)
+Theorem cmp_run_complete a b : wf_named a -> wf_named b -> nv_covered a b -> cmp_run a b = Accept.
+Proof.
+  intros Ha Hb H. apply (cmp_run_complete_gen eq (fun _ => True)); try assumption; [|auto].
+  intros x io ic wo wc Hio _ Hra Hw <-. apply cmp_wire_complete_ord; assumption.
+Qed.
+
+(* COMPLETENESS, pins as a set *)
+Theorem cmp_run_complete_set a b : wf_named a -> wf_named b -> no_asg a -> nv_covered_set a b ->
+  cmp_run a b = Accept.
+Proof.
+  intros Ha Hb Hna H. apply (cmp_run_complete_gen wire_perm not_asg); try assumption.
+  - intros x io ic wo wc Hio Hn Hra Hw Hp. apply cmp_wire_complete_set; assumption.
+  - intros l d Hl Hd. apply not_asg_of. unfold no_asg, no_asgb in Hna.
+    rewrite forallb_forall in Hna. specialize (Hna l Hl). rewrite forallb_forall in Hna. apply Hna. assumption.
 Qed.
 
 Theorem compare_complete_covered a b : wf_named a -> wf_named b -> nv_covered a b -> compare a b = true.
 Proof. intros. apply compare_accept. apply cmp_run_complete; assumption. Qed.
 
+Theorem compare_complete_covered_set a b : wf_named a -> wf_named b -> no_asg a -> nv_covered_set a b ->
+  compare a b = true.
+Proof. intros. apply compare_accept. apply cmp_run_complete_set; assumption. Qed.
+
 (* equivalent (same properties both ways) is a special case of covered *)
-Theorem equiv_ord_covered a b : nv_equiv_ord a b -> nv_covered a b.
+Theorem equiv_covered_gen WR a b : nv_rel props_eq WR a b -> nv_rel props_sub WR a b.
 Proof.
   intros [H1 [H2 [H3 H4]]]. split; [assumption|]. split; [assumption|]. split.
   - destruct (n_top a), (n_top b); cbn in *; try assumption.
@@ -371,12 +479,25 @@ Proof.
     intros ia ib _ _ [I1 [I2 [I3 [I4 _]]]]. split; [assumption|]. split; [assumption|]. split; assumption.
 Qed.
 
+Theorem equiv_ord_covered a b : nv_equiv_ord a b -> nv_covered a b.
+Proof. apply equiv_covered_gen. Qed.
+
+Theorem equiv_covered_set a b : nv_equiv a b -> nv_covered_set a b.
+Proof. apply equiv_covered_gen. Qed.
+
 Theorem compare_complete a b : wf_named a -> wf_named b -> nv_equiv_ord a b -> compare a b = true.
 Proof. intros Ha Hb H. apply compare_complete_covered; [assumption|assumption|]. apply equiv_ord_covered. assumption. Qed.
 
+(* the same connectivity with the pins of the wires listed in any order is accepted *)
+Theorem compare_complete_set a b : wf_named a -> wf_named b -> no_asg a -> nv_equiv a b -> compare a b = true.
+Proof.
+  intros Ha Hb Hna H. apply compare_complete_covered_set; [assumption|assumption|assumption|].
+  apply equiv_covered_set. assumption.
+Qed.
+
 (* the exact characterisation of what the comparer decides on named netlists *)
 Theorem compare_iff_covered a b : wf_named a -> wf_named b -> no_asg a ->
-  (compare a b = true <-> nv_covered a b).
+  (compare a b = true <-> nv_covered_set a b).
 Proof.
-  intros Ha Hb Hna. split; [apply compare_sound_covered; assumption|apply compare_complete_covered; assumption].
+  intros Ha Hb Hna. split; [apply compare_sound_covered; assumption|apply compare_complete_covered_set; assumption].
 Qed.
